@@ -14,4 +14,6 @@ func init() {
 	mut("C10", "unbuffered-frame-ready", "h2/relay.go", "frameReady := make(chan struct{}, 1)", "frameReady := make(chan struct{})", "C10.R4", "")
 	mut("C10", "reader-ignores-closing", "h2/relay.go", "\t\tcase <-closing:\n\t\t\t// The ReadFrame goroutine is abandoned at this point. It completes as soon as the blocking\n\t\t\t// ReadFrame call completes, but could potentially leak for an unspecified duration.\n\t\t\treturn nil\n", "", "C10.R4", "select watches")
 	mut("C10", "readerdone-not-deferred", "h2/relay.go", "\tdefer func() { readerDone <- struct{}{} }()\n", "\tsignal := func() { readerDone <- struct{}{} }\n\t_ = signal\n", "C10.R4", "readerDone is signalled")
+	mut("C10", "wake-only-on-error", "h2/h2.go", "\t\tdefer finish()\n\t\tif err := sToC.relayFrames(stop); err != nil {\n\t\t\tlog.Errorf(\"relaying frame from %v to client: %v\", url, err)\n\t\t}\n", "\t\tif err := sToC.relayFrames(stop); err != nil {\n\t\t\tlog.Errorf(\"relaying frame from %v to client: %v\", url, err)\n\t\t\tfinish()\n\t\t}\n", "C10.R2", "")
+	twin("C10", "wake-inline-all-paths", "h2/h2.go", "\t\tdefer finish()\n\t\tif err := sToC.relayFrames(stop); err != nil {\n\t\t\tlog.Errorf(\"relaying frame from %v to client: %v\", url, err)\n\t\t}\n", "\t\tif err := sToC.relayFrames(stop); err != nil {\n\t\t\tlog.Errorf(\"relaying frame from %v to client: %v\", url, err)\n\t\t}\n\t\tfinish()\n")
 }
